@@ -18,6 +18,8 @@ def main():
     sys.path.insert(0, runner.REPO)
     os.environ.setdefault("PYTHONHASHSEED", "0")
     warnings.simplefilter("ignore")
+    import logging
+    logging.disable(logging.CRITICAL)
     if a.replay:
         from . import replay
         sys.exit(replay.run(a.replay))
